@@ -427,6 +427,9 @@ struct SctpInner {
     peer_cumulative_tsn_ack: AtomicU32,
     forward_tsn_pending: AtomicBool,
     forward_tsn_streams: Mutex<Vec<(u16, u16)>>,
+    // When the last FORWARD-TSN left while the peer's cumulative ack is still behind the
+    // advanced point (retransmission timer, RFC 3758 §3.5 F); None once it is acknowledged.
+    forward_tsn_sent_at: Mutex<Option<Instant>>,
     has_pr_sctp: AtomicBool,
 
     // Tail Loss Probe (TLP, RFC 8985-inspired): when in-flight data is
@@ -879,6 +882,7 @@ impl SctpTransport {
             peer_cumulative_tsn_ack: AtomicU32::new(0),
             forward_tsn_pending: AtomicBool::new(false),
             forward_tsn_streams: Mutex::new(Vec::new()),
+            forward_tsn_sent_at: Mutex::new(None),
             has_pr_sctp: AtomicBool::new(false),
             last_send_or_ack: Mutex::new(Instant::now()),
             tlp_probe_sent: AtomicBool::new(false),
@@ -1179,11 +1183,25 @@ impl SctpInner {
                 self.maybe_send_tlp_probe(now);
             }
 
+            // 6. FORWARD-TSN retransmission timeout (unacknowledged advanced point)
+            let fwd_tsn_timeout = match *self.forward_tsn_sent_at.lock() {
+                Some(sent) => {
+                    let expiry = sent + Duration::from_secs_f64(rto_snapshot);
+                    if expiry > now {
+                        expiry - now
+                    } else {
+                        Duration::from_millis(1)
+                    }
+                }
+                None => Duration::from_secs(3600),
+            };
+
             let sleep_duration = rto_timeout
                 .min(heartbeat_timeout)
                 .min(t1_timeout)
                 .min(sack_timeout)
-                .min(tlp_timeout);
+                .min(tlp_timeout)
+                .min(fwd_tsn_timeout);
 
             tokio::select! {
                 _ = close_rx.notified() => {
@@ -1234,6 +1252,15 @@ impl SctpInner {
                     // because they might be close.
                     if let Err(e) = self.handle_timeout().await {
                         trace!("SCTP handle timeout error: {}", e);
+                    }
+
+                    // FORWARD-TSN not acknowledged within an RTO: send it again.
+                    if self.forward_tsn_timer_expired(Instant::now()) {
+                        self.rto_state.lock().backoff();
+                        self.forward_tsn_pending.store(true, Ordering::SeqCst);
+                        if let Err(e) = self.transmit().await {
+                            trace!("SCTP transmit error after FORWARD-TSN timeout: {}", e);
+                        }
                     }
 
                     // Check Heartbeat Timer
@@ -1943,6 +1970,19 @@ impl SctpInner {
             ) {
                 self.peer_cumulative_tsn_ack
                     .store(cumulative_tsn_ack, Ordering::SeqCst);
+            }
+            if self.has_pr_sctp.load(Ordering::Relaxed) {
+                // RFC 3758 §3.5 (C3): as long as the peer's cumulative ack is behind the
+                // Advanced.Peer.Ack.Point the FORWARD-TSN is sent again - a lost one would
+                // otherwise freeze the peer's cumulative point (and every channel) for good.
+                let advanced = self.advanced_peer_ack_tsn.load(Ordering::SeqCst);
+                let acked = self.peer_cumulative_tsn_ack.load(Ordering::SeqCst);
+                if tsn_gt(advanced, acked) {
+                    self.forward_tsn_pending.store(true, Ordering::SeqCst);
+                } else {
+                    self.forward_tsn_streams.lock().clear();
+                    *self.forward_tsn_sent_at.lock() = None;
+                }
             }
 
             // Log peer_rwnd to understand flow control
@@ -3740,7 +3780,14 @@ impl SctpInner {
                 }
             }
             {
+                // Merge with what an earlier, not yet acknowledged FORWARD-TSN announced.
                 let mut fwd = self.forward_tsn_streams.lock();
+                for (sid, ssn) in fwd.iter() {
+                    let e = stream_ssn.entry(*sid).or_insert(*ssn);
+                    if ssn_gt(*ssn, *e) {
+                        *e = *ssn;
+                    }
+                }
                 *fwd = stream_ssn.into_iter().collect();
             }
             for t in remove {
@@ -3760,6 +3807,22 @@ impl SctpInner {
         }
     }
 
+    /// True when a FORWARD-TSN was sent at least one RTO ago and the peer's cumulative ack
+    /// has still not reached the advanced point.
+    fn forward_tsn_timer_expired(&self, now: Instant) -> bool {
+        let Some(sent) = *self.forward_tsn_sent_at.lock() else {
+            return false;
+        };
+        let rto = self.rto_state.lock().rto;
+        if now < sent + Duration::from_secs_f64(rto) {
+            return false;
+        }
+        tsn_gt(
+            self.advanced_peer_ack_tsn.load(Ordering::SeqCst),
+            self.peer_cumulative_tsn_ack.load(Ordering::SeqCst),
+        )
+    }
+
     fn create_forward_tsn_chunk(&self) -> Option<Bytes> {
         let advanced = self.advanced_peer_ack_tsn.load(Ordering::SeqCst);
         let last_sacked = self.peer_cumulative_tsn_ack.load(Ordering::SeqCst);
@@ -3767,10 +3830,10 @@ impl SctpInner {
             return None;
         }
 
-        let stream_ssn_pairs: Vec<(u16, u16)> = {
-            let mut fwd = self.forward_tsn_streams.lock();
-            std::mem::take(&mut *fwd)
-        };
+        // Kept (not taken) until the peer's cumulative ack reaches the advanced point: a
+        // FORWARD-TSN that has to be sent again must carry the same stream information.
+        let stream_ssn_pairs: Vec<(u16, u16)> = self.forward_tsn_streams.lock().clone();
+        *self.forward_tsn_sent_at.lock() = Some(Instant::now());
 
         let pair_bytes = stream_ssn_pairs.len() * 4;
         let mut body = BytesMut::with_capacity(4 + pair_bytes);
